@@ -9,7 +9,7 @@ from vlib import Infra, CORES
 
 FAMILIES = 8
 PRESETS = 7
-STARTS = ["xor", "rich", "random", "read"]
+STARTS = ["xor", "rich", "random", "read", "outfirst"]
 
 
 def scenarios(seed, tier):
@@ -165,7 +165,7 @@ def c02(ctx, replay):
                 "random, structure-driven) x 7 option presets (many species / stolen babies / fast stagnation with delta coding / one "
                 "species with everybody surviving / heavy stealing with linear compatibility / mating-heavy with interspecies mating / "
                 "several long-lived mid-sized species with heavy stealing) x "
-                "population sizes 3..30 (thorough ..80) x constructors (NewPopulation from two start genomes, NewPopulationRandom, "
+                "population sizes 3..30 (thorough ..80) x constructors (NewPopulation from three start genomes incl. one whose sensors are not first in id order, NewPopulationRandom, "
                 "ReadPopulation of an evolved population) x sequential and parallel executor; every epoch is one trace line with the "
                 "whole population, validated by TLC (Trace_Epoch) against the clauses of C02; in addition every behaviour of MC_Quota "
                 "(exhaustive small populations through adjust / apportion / make-up / stolen babies / delta coding) is installed in "
